@@ -140,6 +140,26 @@ T = {
             "exactly one breakpoint and a coefficient matrix with zero rows (zero() / constant() with one breakpoint)"),
  "S4-C20": ("C20", "getTrajectoryLength: speed taken from a helper that returns velocity(0) for DIM == 1",
             "one-dimensional trajectory with negative velocity at some left sample"),
+ "S5-C02": ("C02", "CubicSplineND: the tridiagonal factorisation is reused when update(durations, ...) sees unchanged durations; update(t_points, ...) never clears the flag",
+           "one cubic object: update(durations) with the durations it holds, then update(t_points) with another time allocation"),
+ "S5-C05": ("C05", "QuinticSplineND: adjoint back-substitution factors built on demand in propagateGradInternal and treated as current when their row count matches",
+           "quintic, N >= 3, propagateGrad, then update() to the same N with other durations, then propagateGrad again"),
+ "S5-C07": ("C07", "calculateIntegralCost: a sample whose running cost is exactly 0 is skipped (continue) before its gradient terms are accumulated",
+           "a running cost that vanishes with non-zero partials exactly at a sample, e.g. c = p.z with a waypoint at z = 0"),
+ "S5-C08": ("C08", "calculateIntegralCost: the end-point weight test k == 0 || k == K replaced by a test on alpha = k * (1.0 / K) being strictly inside (0, 1)",
+           "integration step counts K for which K * (1.0 / K) != 1.0 in double arithmetic (49, 98, 103, 107, ...)"),
+ "S5-C09": ("C09", "setInitState(time points): durations computed by std::adjacent_difference over [t1, end), whose first output is t1 itself",
+           "time-point overload with a first time point different from 0"),
+ "S5-C10": ("C10", "CubicSplineND: start_time_ set in the time-point constructor's initialiser list instead of convertTimePointsToSegments, which update(t_points) shares",
+           "cubic object reused through update(t_points, ...) with a first time point different from its previous start time"),
+ "S5-C11": ("C11", "PPolyND: derivative tables packed into one buffer with per-order offsets that are recomputed only when the total row count changes",
+           "a PPolyND evaluated, then updated to another (segments, coefficients) shape with the same packed row total (3 x 4 -> 5 x 3)"),
+ "S5-C14": ("C14", "SepticSplineND::precomputeTimePowers takes the segment duration from differences of the knot times",
+           "septic spline with a non-zero (large) start time"),
+ "S5-C16": ("C16", "checkValidity: the per-duration loop runs only when std::minmax_element finds a non-finite or too small extreme",
+           "a NaN duration at an interior index of at least three durations"),
+ "S5-C19": ("C19", "checkGradients: valid = (analytical - numerical).maxCoeff() < tol (signed maximum instead of the error norm)",
+           "a user gradient that is too small (negative error) in every wrong component"),
 }
 EXTRA = os.path.join(V, "seeded", "extra_meta.json")
 if os.path.exists(EXTRA):
